@@ -86,6 +86,13 @@ def function_vectors(ctx):
             msb = sb + 1
             lsb = min(56, msb + rng.randrange(0, 12))
             V.append({"fn": "common.wrongstatus", "frame": f, "sb": sb, "msb": msb, "lsb": lsb})
+            if k % 7 == 0:
+                # wide fields with only their top bits set, status bit clear (C integer widths: a field wider than an int)
+                sb2 = rng.randrange(1, 8)
+                top = rng.randrange(sb2 + 1, sb2 + 12)
+                g = f[:4] + [0] * 7 + f[11:]
+                g = gen.set_bits(g, 32 + top, 32 + top, 1)
+                V.append({"fn": "common.wrongstatus", "frame": g, "sb": sb2, "msb": sb2 + 1, "lsb": rng.choice([56, 56, 50, 48, 45])})
             V.append({"fn": "common.idcode", "frame": f, "code": -1})
             V.append({"fn": "common.altcode", "frame": f, "code": -1})
         else:
